@@ -15,9 +15,13 @@
                             [scheme, user, host, port, path, seg] plus ext (script_extension)
                             and login (login_credentials); checks/c13.py assembles
                             scheme://[user@]host[:port]/path/[seg/]
-     representation  rep  = [keys, indent, ascii, ser]                 how the JSON text is written:
-                            key order, whitespace, non-ASCII escaped or not, and who serialised it
-                            (the client / mwlib's myjson.dumps / Collection.dumps after loads)
+     representation  rep  = [keys, indent, ascii, ser, defaults]       how the JSON text is written:
+                            key order, whitespace, non-ASCII escaped or not, who serialised it
+                            (the client / mwlib's myjson.dumps / Collection.dumps after loads), and
+                            whether default-valued / absent fields are spelled out ("version": 1,
+                            "displaytitle": null) or omitted
+   Optional fields carry a VALUE dimension: absent ("none"), present-but-falsy ("empty" = "",
+   "zero" = 0), ordinary; fields with a non-None class default: default / falsy / ordinary.
    Titles, revisions, URLs are abstract names; checks/c13.py maps them to real (Unicode) strings.
    "none" stands for an absent optional field.
 
@@ -63,18 +67,24 @@ WikiIdents == {"w1", "w2"}
 BaseUrls   == {"b1", "b2"}
 LicTexts   == {"lw1", "lw2"}
 Langs      == {"la1", "la2"}
-OptVals  == {None, "o1"}
+\* values of an optional text field: absent, present but empty (falsy, not the default), ordinary
+OptVals  == {None, "empty", "o1"}
+\* fields whose class default is not None: the default, a falsy non-default value, an ordinary one
+\* (version: 1 / 0 / 2;  content_type: "text/x-wiki" / "" / "text/html").  Whether a client writes a
+\* default-valued field explicitly (or writes null for an absent one) is REPRESENTATION: rep.defaults
+VerVals  == {"dflt", "zero", "v2"}
+CtVals   == {"dflt", "empty", "c2"}
 KeyOrders == {"sorted", "reversed", "shuffled"}
-Indents   == {"compact", "i1", "i4", "airy"}
+Indents   == {"compact", "i4", "airy"}
 Sers      == {"client", "myjson", "coll"}
 
-Art(t, r, d) == [k |-> "a", title |-> t, rev |-> r, dt |-> d]
+Art(t, r, d) == [k |-> "a", title |-> t, rev |-> r, dt |-> d, ct |-> "dflt"]
 Chap(t, its) == [k |-> "c", title |-> t, items |-> its]
 Cust(t)      == [k |-> "x", title |-> t, content |-> "cc1"]
 WConf(i, b)  == [ident |-> i, baseurl |-> b]
 Lic(w)       == [title |-> "lt1", wikitext |-> w]
 Src(l, iw)   == [name |-> "sn1", lang |-> l, iw |-> iw]
-Book(its, ws, ls, src) == [title |-> "t1", subtitle |-> None, editor |-> None, items |-> its,
+Book(its, ws, ls, src) == [title |-> "t1", subtitle |-> None, editor |-> None, version |-> "dflt", items |-> its,
                            wikis |-> ws, licenses |-> ls, source |-> src]
 
 SeedBook ==
@@ -111,7 +121,7 @@ Ident == IdentOf(mb, wiki, rep)
 Init ==
   /\ \E s \in SeedIds : mb = SeedBook[s]
   /\ wiki = SeedWiki
-  /\ rep = [keys |-> "sorted", indent |-> "compact", ascii |-> TRUE, ser |-> "client"]
+  /\ rep = [keys |-> "sorted", indent |-> "compact", ascii |-> TRUE, ser |-> "client", defaults |-> "omit"]
   /\ n = 0
   /\ last = <<"seed", "seed">>
 
@@ -130,8 +140,8 @@ IsArt(i)  == mb.items[i].k = "a"
 \* ---- content edits
 AppendArticle ==
   /\ Bounded /\ NArt(mb.items) < MaxArticles
-  /\ \E t \in Titles, r \in Revs :
-       Content(Items(Append(mb.items, Art(t, r, None))), <<"AppendArticle", "top">>)
+  /\ \E t \in Titles :              \* revisions / optional fields are set by ChangeRevision / SetOptional
+       Content(Items(Append(mb.items, Art(t, None, None))), <<"AppendArticle", "top">>)
 
 AppendInChapter ==
   /\ Bounded /\ NArt(mb.items) < MaxArticles
@@ -191,10 +201,13 @@ SetOptional ==                       \* set or unset ("none") an optional field
   /\ Bounded
   /\ \/ \E v \in OptVals \ {mb.subtitle} : Content([mb EXCEPT !.subtitle = v], <<"SetOptional", "subtitle">>)
      \/ \E v \in OptVals \ {mb.editor} : Content([mb EXCEPT !.editor = v], <<"SetOptional", "editor">>)
+     \/ \E v \in VerVals \ {mb.version} : Content([mb EXCEPT !.version = v], <<"SetOptional", "version">>)
      \/ \E i \in DOMAIN mb.items :
           /\ IsArt(i)
-          /\ \E v \in OptVals \ {mb.items[i].dt} :
-               Content(Items([mb.items EXCEPT ![i].dt = v]), <<"SetOptional", "displaytitle">>)
+          /\ \/ \E v \in OptVals \ {mb.items[i].dt} :
+                  Content(Items([mb.items EXCEPT ![i].dt = v]), <<"SetOptional", "displaytitle">>)
+             \/ \E v \in CtVals \ {mb.items[i].ct} :
+                  Content(Items([mb.items EXCEPT ![i].ct = v]), <<"SetOptional", "content_type">>)
 
 \* one component of the wiki coordinates changes; requests differing from the seed's coordinates in
 \* more than one component are left to the simulation runs (OneComponent = FALSE)
@@ -255,20 +268,23 @@ ToggleAsciiEscape ==
 Reserialise ==
   /\ Bounded
   /\ \E s \in Sers \ {rep.ser} : Repr([rep EXCEPT !.ser = s], <<"Reserialise", s>>)
+SpellDefaults ==                     \* write default-valued fields explicitly / null for absent ones, or omit them
+  /\ Bounded
+  /\ Repr([rep EXCEPT !.defaults = IF @ = "omit" THEN "explicit" ELSE "omit"], <<"SpellDefaults">>)
 
 Next == \/ AppendArticle \/ AppendInChapter \/ AppendChapter \/ RemoveItem \/ SwapItems
         \/ ChangeRevision \/ ChangeTitle \/ WrapInChapter \/ SetOptional \/ ChangeWiki
         \/ AppendCustom \/ EditWikiConf \/ EditLicense \/ EditSource
-        \/ PermuteKeys \/ ChangeWhitespace \/ ToggleAsciiEscape \/ Reserialise
+        \/ PermuteKeys \/ ChangeWhitespace \/ ToggleAsciiEscape \/ Reserialise \/ SpellDefaults
 Spec == Init /\ [][Next]_vars
 
 -----------------------------------------------------------------------------
 \* shape of the content (what the harness may rely on)
 TypeOK ==
-  /\ mb.title \in Titles /\ mb.subtitle \in OptVals /\ mb.editor \in OptVals
+  /\ mb.title \in Titles /\ mb.subtitle \in OptVals /\ mb.editor \in OptVals /\ mb.version \in VerVals
   /\ \A i \in DOMAIN mb.items :
        LET it == mb.items[i] IN
-       CASE it.k = "a" -> it.title \in Titles /\ it.rev \in Revs /\ it.dt \in OptVals
+       CASE it.k = "a" -> it.title \in Titles /\ it.rev \in Revs /\ it.dt \in OptVals /\ it.ct \in CtVals
          [] it.k = "x" -> it.title \in Titles
          [] it.k = "c" -> /\ it.title \in Titles
                           /\ \A j \in DOMAIN it.items : it.items[j].k = "a" /\ it.items[j].title \in Titles
